@@ -217,6 +217,10 @@ def p_square(x, *rest, **kw):
 
 
 def p_echo(*args, **kwargs):
+    if kwargs.get('die') == '$die':
+        truth('p-enter', x='$die')
+        truth('p-leave', x='$die', how='raise')
+        raise MyError('asked to die')
     truth('p-enter', x=args[0] if args else None)
     r = [list(args), dict(kwargs)]
     truth('p-leave', x=args[0] if args else None)
@@ -327,6 +331,10 @@ TARGETS['t_linger'] = t_linger
 def p_mut_echo(*args, **kwargs):
     """returns a snapshot of what it received, then mutates every mutable argument"""
     import copy as _copy
+    if kwargs.get('die') == '$die':
+        truth('p-enter', x='$die')
+        truth('p-leave', x='$die', how='raise')
+        raise MyError('asked to die')
     truth('p-enter', x=None)
     snap = [_copy.deepcopy(list(args)), _copy.deepcopy(dict(kwargs))]
     for a in list(args) + list(kwargs.values()):
@@ -339,6 +347,10 @@ def p_mut_echo(*args, **kwargs):
 
 
 def p_none(*args, **kwargs):
+    if kwargs.get('die') == '$die':
+        truth('p-enter', x='$die')
+        truth('p-leave', x='$die', how='raise')
+        raise MyError('asked to die')
     truth('p-enter', x=None)
     truth('p-leave', x=None)
     return None
